@@ -72,8 +72,9 @@ variable {K : Type} [Add K] [Mul K] [Div K] [OfNat K 0] [IntCast K] [NatCast K]
 def evalTerm (n : Nat) (c : K) (f : Nat → K) (t : Term) : K :=
   (t.coef : K) * (match t.src with | some s => f (s.pos n) | none => c)
 
-def evalTerms (n : Nat) (c : K) (f : Nat → K) (ts : List Term) : K :=
-  (ts.map (evalTerm n c f)).sum
+def evalTerms (n : Nat) (c : K) (f : Nat → K) : List Term → K
+  | [] => 0
+  | t :: ts => evalTerm n c f t + evalTerms n c f ts
 
 /-- Interior rows `1 ≤ i ≤ n-2`; the other rows are not written by the interior code
 (`np.empty`: modelled as 0, every leaf assigns them). -/
